@@ -665,6 +665,17 @@ def gen_cases(rng, cc):
             else:
                 m = rng.uniform(min(a, b), max(a, b))
         cases.append(dict(op="length", a=a, m=m, b=b, full=(j == 0)))
+    if kind in ("linear", "spline") and "pre" in spec and spec.get("equalize"):
+        # a transformed curve: range ends BETWEEN the parameter a defining point had at construction and the one it has
+        # now (anything remembered from construction shows here)
+        p0 = np.array(spec["points0"], dtype=float)
+        cl = np.concatenate(([0.0], np.cumsum(np.linalg.norm(np.diff(p0, axis=0), axis=1))))
+        old = cl / cl[-1]
+        moved = [i for i in range(1, len(old) - 1) if abs(old[i] - cc.ts[i]) > 2e-3]
+        for i in rng.sample(moved, min(2, len(moved))):
+            b = float(old[i] + cc.ts[i]) / 2
+            a = cc.lo if rng.random() < 0.5 else cc.hi
+            cases.append(dict(op="length", a=a, m=rng.uniform(min(a, b), max(a, b)), b=b, full=False))
     for near in ((True, False) if kind in ("circle", "helix") else (True, True, False)):
         if kind == "discrete":
             i = rng.randint(0, int(cc.hi))
